@@ -151,6 +151,7 @@ def _alone(arg):
     if box and 'a' in box and box['a'] == (w['sections'][4][0] + 4) * 8:
         nbits = box['b'] - box['a']
     out['nbits'] = nbits
+    out['key'] = repr(tuple(m.table_group_key[1:]))
     out['dig'] = _subset_digest(m, 0, _nested_subsets(m))
     fj = json.loads(json.dumps(FlatJsonRenderer().render(m), **JSON_DUMPS_KWARGS))
     out['vals'] = json.dumps(fj[-2][2][0])
@@ -373,6 +374,22 @@ def build_pool(seed, tier):
             corpus_groups[gid] = e
             for hx in r:
                 cands.append((gid, 'corpus', 'corpus', hx, None))
+    # corpus: real single-subset messages that share one template (same descriptor list, edition, table
+    # versions) are the alone contents of that template
+    bytmpl = {}
+    for e in poolmod.corpus_messages():
+        raw = bytes.fromhex(e['hex'])
+        w = bufrgen.walk(raw)
+        if w['compressed'] or w['nsub'] != 1 or w['category'] == 11 or raw.find(b'BUFR', 1) >= 0:
+            continue
+        bytmpl.setdefault((tuple(w['ids']), w['edition'], w['version'], w['local_version']), []).append(e)
+    for ti, tk in enumerate(sorted(bytmpl)):
+        es = bytmpl[tk]
+        if len(es) < 2:
+            continue
+        pick = rng.sample(es, min(len(es), 6 if tier == 'quick' else 14))
+        for e in pick:
+            cands.append(('ct%d' % ti, 'corpus-template', 'corpus-template', e['hex'], None))
     res = core.pmap('sub_alone', [{'hex': c[3]} for c in cands], limit=300)
     groups = {}
     info = {'alone_candidates': len(cands), 'alone_rejected': 0, 'alone_without_bit_count': 0,
@@ -395,12 +412,19 @@ def build_pool(seed, tier):
         if kind != 'corpus' and any(a['hex'] == hx for a in g['alone']):
             continue
         g['alone'].append({'hex': hx, 'nbits': r['nbits'], 'dig': r['dig'], 'cdig': r['cdig'], 'vals': r['vals'],
-                           'reenc': r['reenc'], 'json0': r['json0']})
+                           'reenc': r['reenc'], 'json0': r['json0'], 'key': r['key']})
     out = []
     for gid in sorted(groups):
         g = groups[gid]
         if g['bad'] or not g['alone']:
             continue
+        if g['kind'] == 'corpus-template':
+            # one table group per program: keep the contents that share the most frequent one
+            keys = [a['key'] for a in g['alone']]
+            best = max(sorted(set(keys)), key=keys.count)
+            g['alone'] = [a for a in g['alone'] if a['key'] == best]
+            if len(g['alone']) < 2:
+                continue
         if g['kind'] == 'corpus':
             # conservation: the pieces' consumed bits, concatenated, are the original's data bits
             orig = bytes.fromhex(corpus_groups[gid]['hex'])
@@ -424,7 +448,7 @@ def build_pool(seed, tier):
         out.append({'gid': gid, 'kind': g['kind'], 'opkind': g['opkind'], 'alone': g['alone'],
                     'natural': bool(g.get('natural'))})
     info['groups'] = len(out)
-    info['groups_by_kind'] = dict((k, sum(1 for g in out if g['kind'] == k)) for k in ('operator', 'c06prog', 'plain', 'corpus'))
+    info['groups_by_kind'] = dict((k, sum(1 for g in out if g['kind'] == k)) for k in ('operator', 'c06prog', 'plain', 'corpus', 'corpus-template'))
     info['alone_contents'] = sum(len(g['alone']) for g in out)
     info['note'] = 'this engine writes its own programs (bufrgen + seeded data contents) and measures every content alone in a pristine process'
     info['pool_mismatch'] = []
@@ -459,7 +483,7 @@ def gen_plan(family, seed, groups, tier='quick', index=None):
             compiled = None
     return {'engine': 'subsim', 'family': 'c06', 'sub': 'each' if family == 'c06-each' else 'random', 'seed': seed,
             'kind': g['kind'], 'opkind': g['opkind'], 'ref': g['gid'],
-            'alone': [dict((a, b) for a, b in x.items() if a != 'json0') for x in g['alone']],
+            'alone': [dict((a, b) for a, b in x.items() if a not in ('json0', 'key')) for x in g['alone']],
             'json0': g['alone'][0]['json0'], 'orders': orders, 'compiled': compiled,
             'pad4': rng.choice([0, 0, 0, 1, 2])}
 
